@@ -3,8 +3,8 @@ import itertools, random
 from vlib import core, corr
 
 AREA = "C19"
-MODULES = ["TinsModel.Props.C19"]
-AUDIT = "Audit/C19.lean"
+MODULES = ["TinsModel.Props.C19", "TinsModel.Props.Limits.C19"]   # + the constants / limits tied to the source (translator/gen_limits.py)
+AUDIT = ["Audit/C19.lean", "Audit/LimitsC19.lean"]
 LEVEL = "proof"
 HARNESS = "c19_acktracker"
 CASE_START = ("init", "finit", "new")
@@ -22,6 +22,10 @@ MANIFEST = dict(
          "(harness/c19_acktracker.cpp); generator coverage bounds what the tie sees.",
     technique="Lean 4 proof (invariant/refinement over ACK histories) + model/impl correspondence + spec oracle",
     design="DESIGN.md §6 C19")
+MANIFEST["note"] += (" Constants and limits of the C++ source that the model restates (translator/gen_limits.py -> Gen/Limits.lean: "
+                     "compiled probe + preprocessed function bodies at named anchors) are tied to the model's numerals by the "
+                     "theorems of lean/TinsModel/Props/Limits/C19.lean (audit: Audit/LimitsC19.lean); tools/LIMITS-INVENTORY.md lists "
+                     "what is tied and what is not.")
 
 M32 = 2**32
 HALF = 2**31
@@ -288,7 +292,12 @@ def oracle_counts(chk, exe, ops):
 
 
 def run(chk):
+    from translator import gen_limits
+    gen_limits.main([])          # Gen/Limits.lean: constants and limits read from the current source
+    chk.trusted.append("translator/gen_limits.py (constants / limits of the source -> Gen/Limits.lean: compiled probe + "
+                       "preprocessed function bodies at named anchors; tied to the model numerals by Props/Limits/C19.lean)")
     problems = chk.prove(MODULES, AUDIT, want_leanchecker=(chk.tier == "thorough"))
+    problems = gen_limits.name_failures(chk, problems, "C19")   # name the tie theorems that fail
     exe, err = core.build_harness(HARNESS)
     if exe is None:
         chk.violation("implementation does not build: " + err[-1500:], ["build-error"], nofail=True)
